@@ -811,7 +811,7 @@ def oracle_with(plan, tr, refs):
             expi = refs.get(keyi)
             if expi == 'step-budget-exceeded':
                 continue
-            if _both_fail_on_undefined(got, expi):
+            if _undefined_under_fallback(plan, op, got, expi):
                 continue
             if got != expi:
                 clause = 'C08.r' if _uses_loaded(plan, tr, i) else 'C08.h'
@@ -823,15 +823,33 @@ def oracle_with(plan, tr, refs):
     return out
 
 
-def _both_fail_on_undefined(a, b):
-    """C08 quantifies over templates that are defined. Under a tables root that lacks the message's
-    table version the library falls back to another version, in which a descriptor of the template may
-    be undefined: the compiler then reports the unknown descriptor when it builds the template, the
-    interpreter only when (and if) it reaches it - both fail, with different errors. Outside the domain;
-    a failure on one side only is still reported."""
-    fa = isinstance(a, str) and a.startswith('raise:')
-    fb = isinstance(b, str) and b.startswith('raise:')
-    return fa and fb and 'raise:UnknownDescriptor' in (a, b)
+def _undefined_under_fallback(plan, op, a, b):
+    """C08 quantifies over templates that are defined. The alias tables root lacks three master table
+    versions on purpose; a message of such a version falls back to another version there, in which a
+    descriptor of its template may be undefined. The compiler then reports the unknown descriptor when it
+    builds the template - even inside a replication that the data execute zero times - while the
+    interpreter reports it only when (and if) it reaches it, or fails earlier on the misread data. Such a
+    comparison is outside the domain. Without a fallback in effect an unknown-descriptor error on one side
+    only is still a violation."""
+    if 'raise:UnknownDescriptor' not in (a, b):
+        return False
+    import re
+    pairs = []
+    if 'h' in op:
+        dop = plan['ops'][op['h']]
+        pairs.append((dop['c'], dop['m']))
+        if 'c' in op:
+            pairs.append((op['c'], dop['m']))
+    elif 'ms' in op:
+        pairs.extend((op['c'], m) for m in op['ms'])
+    elif 'c' in op and 'm' in op:
+        pairs.append((op['c'], op['m']))
+    for c, m in pairs:
+        if plan['clients'][c].get('root') == 'alias':
+            v = re.search(r"'0_0', '(\d+)'", plan['msgs'][m].get('key') or '')
+            if v and v.group(1) in ALIAS_OMITS:
+                return True
+    return False
 
 
 def _cls(r):
